@@ -27,7 +27,8 @@ LEVEL_TEXT = ("Theorems over all trees (modules, classes, functions, attributes,
               "line numbers, regular / namespace / builtin file paths, any member names - decodes to exactly `reload t`, an explicit function "
               "(C08_decode_enc_min); `reload t` re-encodes to the identical JSON unless a docstring is not a fixpoint of cleandoc "
               "(C08_reencode_identical, C08_roundtrip_min), agrees with t on every serialised field up to parent links (C08_equiv_fields), and is t "
-              "itself when no expression gap is present (C08_names_resolve_modulo_known). Computed `_refuted` witnesses for the remaining findings "
+              "itself when no expression gap is present (C08_names_resolve_modulo_known). Full mode, for any derived values F that decode: a "
+              "full document decodes to the same `reload t` and, with the same F, re-encodes identically (C08_full_decode, C08_roundtrip_full). Computed `_refuted` witnesses for the remaining findings "
               "(F4, F6, F8-F11), each replayed on the implementation; C08_fixed_witnesses: the witnesses of the repaired defects round-trip to "
               "themselves; an Example tree with every node kind satisfies all hypotheses. The expression class table, enum values, constructor "
               "signatures and the shape of json_decoder's two tests are regenerated from the sources on every run; the model is tied to the code by "
@@ -35,9 +36,9 @@ LEVEL_TEXT = ("Theorems over all trees (modules, classes, functions, attributes,
               "hand-built trees, 1500+ expressions, damaged documents, and `griffe dump` invocations, in both modes.")
 LEVEL_NOTE = ("Trusted: Coq kernel, extraction, translator harness/translate/c08_tables.py, the abstraction live object -> model tree in this module, "
               "json.dumps/json.loads themselves (the model starts at the dict level; first binding wins in the model, documents never repeat a key). "
-              "Partial: full mode is modelled (encoding with the derived values - paths relative to cwd/package, parsed sections - as parameters read "
-              "from the live objects; decoding through the same `decode`) and compared with the implementation on every tree, but the full-mode round "
-              "trip is not a theorem; docstring parser and options are not serialised, so a full dump made with a parser re-derives text sections. "
+              "Full mode: the derived values (paths relative to cwd/package, parsed docstring sections) are parameters of the model read from the "
+              "live objects; that the implementation re-derives them identically after a reload is checked on every tree, not proved; docstring "
+              "parser and options are not serialised, so a full dump made with a parser re-derives plain text sections. "
               "Name *resolution* is C04's subject: the theorems carry every name's parent link, equality of canonical paths before/after is checked "
               "on the implementation per name occurrence. Fields that are never serialised (imports, exports, runtime, public, deprecated, extra, "
               "overloads, property setters/deleters) are outside the statement. Documents whose root is not a module, non-ASCII strings, set_member "
